@@ -992,6 +992,18 @@ func (fr *frame) step(st *PState, ins ssa.Instruction) {
 		st.env[ins] = &IfaceVal{Dyn: ins.X.Type(), Payload: fr.val(st, ins.X)}
 	case *ssa.ChangeInterface:
 		st.env[ins] = fr.val(st, ins.X)
+	case *ssa.SliceToArrayPointer:
+		// [N]byte(s) / (*[N]byte)(s) of a byte slice: a local array of unknown content (the relation to the bytes of
+		// the slice is not kept); panics when the slice is shorter than the array
+		x := fr.term(st, ins.X)
+		at := ins.Type().(*types.Pointer).Elem()
+		arr, ok := at.Underlying().(*types.Array)
+		if !ok || !isByteArray(at) || x.Sort != SBytes {
+			bail("%T of %s", ins, ins.X.Type())
+		}
+		fr.panicUnless(st, App(SBool, ">=", App(SInt, "blen", x), IntLit(arr.Len())), "slice shorter than array in conversion")
+		id := st.NewCell(&ByteArrVal{Elems: make([]*T, arr.Len()), Opaque: true})
+		st.env[ins] = &PtrVal{Kind: PLocal, Cell: id, Root: at}
 	case *ssa.ChangeType:
 		v := fr.val(st, ins.X)
 		if t, ok := v.(T); ok {
@@ -1024,7 +1036,7 @@ func (fr *frame) step(st *PState, ins ssa.Instruction) {
 		st.env[ins] = fr.rangeOp(st, ins)
 	case *ssa.Next:
 		st.env[ins] = fr.nextOp(st, ins)
-	case *ssa.SliceToArrayPointer, *ssa.MultiConvert:
+	case *ssa.MultiConvert:
 		bail("%T", ins)
 	default:
 		bail("instruction %T (%s)", ins, ins)
